@@ -17,7 +17,19 @@ func init() {
 
 // exitsOf walks a function standalone and returns its exit states.
 func (c *RC) exitsOf(fn *FuncInfo) []*State {
-	return c.A.walkFunc(fn, newState(), false)
+	return c.A.walkFuncFull(fn, newState(), false, false, true, nil)
+}
+
+// exitsFrom: like exitsOf but from a given initial state (inline mode).
+func (c *RC) exitsFrom(fn *FuncInfo, init *State, trackFields bool) []*State {
+	return c.A.walkFuncFull(fn, init, false, trackFields, true, nil)
+}
+
+// inlineSites walks fn in inline mode recording sites (with the caller's context) into a private table.
+func (c *RC) inlineSites(fn *FuncInfo, trackFields bool) *Analysis {
+	rec := &Analysis{Prog: c.Prog, Sites: map[string]*Site{}, FnSites: map[*FuncInfo][]*Site{}}
+	c.A.walkFuncFull(fn, newState(), true, trackFields, true, rec)
+	return rec
 }
 
 // ---- C04 ----
